@@ -157,7 +157,7 @@ def xcfg(tier):
 
 
 # ------------------------------------------------------------------------------------------------ url_aggregator steps
-from engine import STR_REPLACE, STR_STUBS  # noqa
+from engine import STR_REPLACE, STR_STUBS, TO_ASCII  # noqa
 
 STEP_OPS = [
     # name, root, value lengths (quick, thorough), defs
@@ -172,6 +172,8 @@ STEP_OPS = [
     ("set_pathname", "vk_st_set_pathname", (0, 2), (0, 1, 2, 3), {"OP_SET_PATHNAME": 1}),
     ("set_protocol", "vk_st_set_protocol", (2, 3), (0, 1, 2, 3, 4, 5), {"OP_SET_PROTOCOL": 1}),
 ]
+# set_host / set_hostname (OP_SET_HOST, IDNA cut by the TO_ASCII stub) were built and measured: no verdict within 20 min
+# per query even for the empty value and with the shape case split -> not registered (DESIGN.md section 4).
 
 
 def steps(tier, ops=None, with_limit=False, tag="", pick=None, cfg="default"):
@@ -180,20 +182,46 @@ def steps(tier, ops=None, with_limit=False, tag="", pick=None, cfg="default"):
     for name, root, qm, tm, defs in STEP_OPS:
         if ops and name not in ops:
             continue
-        for n in lens(tier, (9,), (6, 8, 10, 12)):
-            for m in lens(tier, qm, tm):
+        heavy = name in HEAVY_OPS
+        for n in lens(tier, (9,), (6, 8, 10, 12) if not heavy else (8,)):
+            for m in lens(tier, qm, tm if not heavy else tuple(x for x in tm if x in (0, 2))):
                 if tier == Q and pick is not None and (name, m) not in pick:
                     continue
-                d = {"N": n, "M": m, "BN": 15, "KERNEL": "F_" + root}
-                d.update(defs)
+                shapes = [None]
+                if heavy and tier != Q:
+                    # case split on the shape of the state (assigned constants prune the symbolic execution): the cases
+                    # below cover: fragment present/absent x query present/absent x scheme class {http, non-special,
+                    # non-special with opaque path, file}; the other special schemes (https, ws, wss, ftp) are covered by
+                    # the unsplit obligations of the light setters only (stated in the evidence)
+                    shapes = [(h, q, t, op) for h in (0, 1) for q in (0, 1) for (t, op) in ((0, 0), (1, 0), (1, 1), (6, 0))]
+                for sh in shapes:
+                    d = {"N": n, "M": m, "BN": 15, "KERNEL": "F_" + root}
+                    d.update(defs)
+                    sfx = ""
+                    if sh is not None:
+                        d.update({"SH_HASH": sh[0], "SH_SEARCH": sh[1], "SH_TYPE": sh[2], "SH_OPAQUE": sh[3]})
+                        sfx = f"_h{sh[0]}q{sh[1]}t{sh[2]}o{sh[3]}"
+                    _step_obl(o, name, root, n, m, d, sfx, tag, with_limit, cfg, tier)
+    return o
+
+
+HEAVY_OPS = ("set_search", "set_hash", "set_pathname", "set_protocol", "set_host", "set_hostname")
+
+
+def _step_obl(o, name, root, n, m, d, sfx, tag, with_limit, cfg, tier):
+    if True:
+        if True:
+            if True:
                 stubs = list(STR_STUBS)
+                if name in ("set_host", "set_hostname"):
+                    stubs.append(TO_ASCII)
                 roots = [root]
                 if with_limit:
                     d["WITH_LIMIT"] = 1
                     roots.append("vk_set_limit")
-                o.append(Obl(f"step{tag}_{name}_n{n}_m{m}", "step.c", [U(roots, cfg, stubs=stubs)], defs=d, unwind=17,
-                             maxcpy=16, mem_gb=16, timeout=(600 if tier == Q else 1800), weight=10 + m))
-    return o
+                o.append(Obl(f"step{tag}_{name}_n{n}_m{m}{sfx}", "step.c", [U(roots, cfg, stubs=stubs)], defs=d, unwind=17,
+                             maxcpy=16, mem_gb=16, timeout=(600 if tier == Q else 1800), weight=10 + m,
+                             allow_vacuous=bool(sfx)))
 
 
 # ------------------------------------------------------------------------------------------------ properties
@@ -298,8 +326,13 @@ def twins(tier):
     return o
 
 
+def shorten(tier):
+    return [Obl(f"shorten_path_n{n}", "shorten.c", [U("vk_shorten_path", stubs=STR_STUBS)], defs={"N": n}, unwind=n + 3, maxcpy=16,
+                witness=(n == 3), mem_gb=8, timeout=(240 if tier == Q else 1200)) for n in lens(tier, (0, 1, 3, 4, 6), range(0, 12))]
+
+
 def prop_C04(tier):
-    return twins(tier)
+    return twins(tier) + shorten(tier)
 
 
 def prop_C12(tier):
@@ -428,7 +461,7 @@ def fastpath(tier):
 
 
 def prop_C01(tier):
-    return scanners(tier) + fastpath(tier) + [x for x in pct_decode(tier) if "plain" in x.name]
+    return scanners(tier) + shorten(tier) + fastpath(tier) + [x for x in pct_decode(tier) if "plain" in x.name]
 
 
 # properties whose step obligations rest on INV: the native base case (parser results satisfy INV) is run with them
